@@ -411,16 +411,34 @@ def r10(R):
                 st = 'consulted'
         if node.kind == 'test' and lab in ('T', 'F') and st == 'start':
             # the caller supplied positional / keyword arguments (an id)
-            names = {x.id for x in ast.walk(node.ast)
-                     if isinstance(x, ast.Name)}
-            if names & varargs:
-                for e, truth in implied_atoms(node.ast, lab):
-                    if isinstance(e, ast.Name) and e.id in varargs and truth:
-                        return 'caller-id'
-                    if isinstance(e, ast.BoolOp):
-                        # `not a and 'tid' not in k` failed: something given
-                        return 'caller-id' if not truth else st
+            # value of the test when the caller supplied nothing: a branch
+            # that contradicts it is taken only with an id supplied
+            v = nothing_supplied(node.ast)
+            if v is not None and (lab == 'T') != v:
+                return 'caller-id'
         return st
+
+    def nothing_supplied(e):
+        if isinstance(e, ast.Name) and e.id in varargs:
+            return False
+        if isinstance(e, ast.UnaryOp) and isinstance(e.op, ast.Not):
+            v = nothing_supplied(e.operand)
+            return None if v is None else not v
+        if isinstance(e, ast.Compare) and len(e.ops) == 1 and isinstance(
+                e.ops[0], (ast.In, ast.NotIn)) and isinstance(
+                    e.comparators[0], ast.Name) and \
+                e.comparators[0].id in varargs:
+            return isinstance(e.ops[0], ast.NotIn)
+        if isinstance(e, ast.BoolOp):
+            vs = [nothing_supplied(x) for x in e.values]
+            if isinstance(e.op, ast.And):
+                if any(x is False for x in vs):
+                    return False
+                return True if all(x is True for x in vs) else None
+            if any(x is True for x in vs):
+                return True
+            return False if all(x is False for x in vs) else None
+        return None
 
     def at(node, st):
         for op in F.ops(node):
